@@ -1,6 +1,7 @@
 (** Property C09 — the theorems the check counts as obligations.  Nothing but
     statements closed by [exact] and [Print Assumptions]. *)
-From HS Require Import Base.Prelude C09.Model C09.Resource C09.Sync C09.Limits C09.Pool C09.Bulk C09.Barrier.
+From HS Require Import Base.Prelude Base.PyLib C09.Model C09.Resource C09.Sync C09.Limits C09.Pool C09.Bulk C09.Barrier
+  Gen.ConcurrencyGen C09.ConcTie.
 From Coq Require Import Sorting.Sorted.
 Local Open Scope Z_scope.
 
@@ -269,3 +270,39 @@ Theorem c09_barrier_wait_is_parked : forall s c now, br_broken s = false ->
   (forall enq now', assoc_find c (br_released s) = Some enq -> snd (br_step s (BrWaitResume c now')) = BrReturned).
 Proof. exact barrier_wait_is_parked. Qed.
 Print Assumptions c09_barrier_wait_is_parked.
+
+(* ---------------- code level: server/concurrency.py as regenerated by py2coq ---------------- *)
+
+(** FixedConcurrency / DynamicConcurrency / WeightedConcurrency of components/server/concurrency.py,
+    as REGENERATED from the source on every run (Gen/ConcurrencyGen.v): every operation — acquire,
+    release, has_capacity with ANY weight, set_limit, scale_up, scale_down — acts on the object as the
+    limiter model's [c_step] acts on its abstraction [st_of], with the model's result; the read-only
+    properties active / limit / available are the model's. *)
+Theorem c09_code_limiters_refine_model : forall c o,
+  (st_of (fst (code_c_step c o)) = fst (c_step (st_of c) o) /\ snd (code_c_step c o) = snd (c_step (st_of c) o))
+  /\ match c with
+     | LFixed x => FixedConcurrency_active x = c_active (st_of c) /\ FixedConcurrency_limit x = c_limit (st_of c)
+                   /\ FixedConcurrency_available x = c_available (st_of c)
+     | LDyn x => DynamicConcurrency_active x = c_active (st_of c) /\ DynamicConcurrency_limit x = c_limit (st_of c)
+                 /\ DynamicConcurrency_available x = c_available (st_of c)
+     | LWeighted x => WeightedConcurrency_active x = c_active (st_of c) /\ WeightedConcurrency_limit x = c_limit (st_of c)
+                      /\ WeightedConcurrency_available x = c_available (st_of c)
+     end.
+Proof. intros c o. exact (conj (tie_c_step c o) (tie_c_reads c)). Qed.
+Print Assumptions c09_code_limiters_refine_model.
+
+(** The limiters AS TRANSLATED never over-admit: created empty with a limit >= 1, FixedConcurrency and
+    WeightedConcurrency keep 0 <= in use <= limit for EVERY sequence of operations with any weights,
+    and the limit never changes. *)
+Theorem c09_code_limiter_static_bound : forall limit ops, 1 <= limit ->
+  (let s := st_of (code_c_run (LFixed (mkFixedConcurrency limit 0)) ops) in c_limit s = limit /\ 0 <= c_active s <= limit)
+  /\ (let s := st_of (code_c_run (LWeighted (mkWeightedConcurrency limit 0)) ops) in c_limit s = limit /\ 0 <= c_active s <= limit).
+Proof. exact code_limiter_static_bound. Qed.
+Print Assumptions c09_code_limiter_static_bound.
+
+(** A successful acquire of the translated DynamicConcurrency never takes the count above the limit in force. *)
+Theorem c09_code_limiter_dynamic_acquire : forall c w,
+  snd (code_c_step (LDyn c) (CAcquire w)) = CTrue ->
+  c_active (st_of (fst (code_c_step (LDyn c) (CAcquire w)))) <= c_limit (st_of (LDyn c)).
+Proof. exact code_limiter_dynamic_acquire. Qed.
+Print Assumptions c09_code_limiter_dynamic_acquire.
